@@ -218,14 +218,6 @@ func (m *MemMapFs) Open(name string) (File, error) {
 	return nil, err
 }
 
-func (m *MemMapFs) openWrite(name string) (File, error) {
-	f, err := m.open(name)
-	if f != nil {
-		return mem.NewFileHandle(f), err
-	}
-	return nil, err
-}
-
 func (m *MemMapFs) open(name string) (*mem.FileData, error) {
 	name = normalizePath(name)
 
@@ -248,42 +240,54 @@ func (m *MemMapFs) lockfreeOpen(name string) (*mem.FileData, error) {
 	}
 }
 
-// openOrCreate returns a handle on name and creates the file, with mode perm, when the name
-// is free.  Lookup and creation are one critical section: exactly one of several concurrent
-// O_CREATE|O_EXCL calls creates the file, and a concurrent O_CREATE can no longer truncate a
-// file that another call has just created (Create truncates an existing file).
-func (m *MemMapFs) openOrCreate(name string, flag int, perm os.FileMode) (File, error) {
+// lockfreeOpenOrCreate looks name up and creates the file, with mode perm, when the name is
+// free.  The caller holds m.mu write-locked, so lookup and creation are one critical section:
+// exactly one of several concurrent O_CREATE|O_EXCL calls creates the file, and a concurrent
+// O_CREATE can no longer truncate a file that another call has just created (Create truncates
+// an existing file).
+func (m *MemMapFs) lockfreeOpenOrCreate(name string, flag int, perm os.FileMode) (*mem.FileData, error) {
 	norm := normalizePath(name)
-	m.mu.Lock()
-	defer m.mu.Unlock()
 	if f, ok := m.getData()[norm]; ok {
 		if flag&os.O_EXCL > 0 {
 			return nil, &os.PathError{Op: "open", Path: name, Err: ErrFileExists}
 		}
-		return mem.NewFileHandle(f), nil
+		return f, nil
 	}
 	f := mem.CreateFile(norm)
 	mem.SetMode(f, perm)
 	m.getData()[norm] = f
 	m.registerWithParent(f, 0)
-	return mem.NewFileHandle(f), nil
+	return f, nil
 }
 
 func (m *MemMapFs) OpenFile(name string, flag int, perm os.FileMode) (File, error) {
 	perm &= chmodBits
-	var file File
+	// The lookup (or the creation) and the preparation of the handle - read-only or not, the
+	// O_APPEND offset, the O_TRUNC truncation - are ONE critical section of m.mu (lock order
+	// m.mu, then the file's mutex, as in Create).  Truncating after the section had ended let
+	// calls of other goroutines on the same name (Create, Chtimes, Rename, ...) take effect
+	// between the two halves of this call.
+	var data *mem.FileData
 	var err error
 	if flag&os.O_CREATE > 0 {
-		file, err = m.openOrCreate(name, flag, perm)
+		m.mu.Lock()
+		defer m.mu.Unlock()
+		data, err = m.lockfreeOpenOrCreate(name, flag, perm)
 	} else {
-		file, err = m.openWrite(name)
+		m.mu.RLock()
+		defer m.mu.RUnlock()
+		data, err = m.lockfreeOpen(name)
+		if err != nil {
+			err = &os.PathError{Op: "open", Path: normalizePath(name), Err: err}
+		}
 	}
 	if err != nil {
 		return nil, err
 	}
+	file := mem.NewFileHandle(data)
 	if flag&(os.O_WRONLY|os.O_RDWR) == 0 {
 		// the access mode, not the whole flag word, decides whether the handle may write
-		file = mem.NewReadOnlyFileHandle(file.(*mem.File).Data())
+		file = mem.NewReadOnlyFileHandle(data)
 	}
 	if flag&os.O_APPEND > 0 {
 		_, err = file.Seek(0, io.SeekEnd)
